@@ -347,13 +347,34 @@ Init ==
   /\ exp = NoExp
   /\ act = [op |-> "init"]
 
+\* Extended monitoring: the keys the server maintains about subscriptions, locks and connection times
+\* are not the effect of any client request.  The reference layer takes them over from the
+\* implementation-shaped layer (they are checked for what they should say by LockInfoInv, and for
+\* everything structural - clean trees, listings, events in step with the store - like any other key).
+MonKey(k) ==
+  /\ Len(k) >= 2 /\ k[1] = SYS
+  /\ \/ k = <<SYS, SUBS>>
+     \/ k[2] = LOCKS
+     \/ (Len(k) >= 4 /\ k[2] = CLIENTS /\ k[4] \in {SUBS, SINCE})
+Overlay(X, Snew) ==
+  IF ~ExtMon THEN X
+  ELSE LET mon  == {k \in DOMAIN Snew.store : MonKey(k) /\ Snew.store[k].k # "none"}
+           rest == {k \in DOMAIN X.ref : ~MonKey(k)}
+       IN [X EXCEPT !.ref = [k \in rest \cup mon |-> IF k \in mon THEN Snew.store[k] ELSE X.ref[k]]]
+\* the delivered events without those about monitoring keys
+NoMonBatch(b) == {e \in {[e0 EXCEPT !.kvs = {kv \in e0.kvs : ~MonKey(kv[1])}] : e0 \in b} : e.kvs # {}}
+NoMon(ev) ==
+  IF ~ExtMon THEN ev
+  ELSE LET f == [id \in DOMAIN ev |-> SelectSeq([i \in DOMAIN ev[id] |-> NoMonBatch(ev[id][i])], LAMBDA b : b # {})]
+       IN RestrictF(f, {id \in DOMAIN f : f[id] # <<>>})
+
 Step(r) ==
   LET res == Result(S, r, R.nacq + 1)
       o   == [rep |-> res.rep, ev |-> res.ev, ls |-> res.ls, lk |-> res.lk]
       rs  == RefStep(R, r, o)
   IN /\ S' = res.s
      /\ out' = o
-     /\ R' = Feed(rs.R, o, r)
+     /\ R' = Overlay(Feed(rs.R, o, r), res.s)
      /\ exp' = rs.exp
      /\ act' = r
 
@@ -403,6 +424,15 @@ C06State ==
        /\ \A i \in 1..Len(S.locks[k].cands) :
             S.locks[k].cands[i].reqs = PendingOf(R, k, S.locks[k].cands[i].c)
 
+\* extended monitoring: $SYS/locks says who holds what, and nothing else
+LockInfoInv ==
+  (ExtMon /\ ~S.down) =>
+  /\ \A k \in DOMAIN S.locks :
+       LET m == <<SYS, LOCKS>> \o Esc(k) IN HasVal(S.store, m) /\ S.store[m].v = S.locks[k].holder
+  /\ \A m \in DOMAIN S.store :
+       (Len(m) > 2 /\ m[1] = SYS /\ m[2] = LOCKS /\ S.store[m].k # "none") =>
+          \E k \in DOMAIN S.locks : m = <<SYS, LOCKS>> \o Esc(k)
+
 \* C07 (state part): nothing of a departed session is left
 C07State ==
   ~S.down =>
@@ -416,7 +446,7 @@ C07State ==
 
 \* edge conditions: what was delivered is what the reference layer expects
 EdgeRep == exp.rep.t = "any" \/ out.rep = exp.rep \/ out.rep.t = "down"
-EdgeEv  == out.rep.t = "down" \/ out.ev = exp.ev          \* C03, C07, C08
+EdgeEv  == out.rep.t = "down" \/ NoMon(out.ev) = NoMon(exp.ev)   \* C03, C07, C08
 EdgeLk  == out.rep.t = "down" \/ out.lk = exp.lk          \* C06
 \* an acquire request gets at most one outcome
 EdgeOnce == \A x \in out.lk : x[1] \notin (R.resolved \ {y[1] : y \in exp.lk})
